@@ -14,6 +14,10 @@ def item(d):
         defs = [f'({lib.cstr(f)}, ({lib.cstr(s)}, ["id"]))' for f, s in d['fields'].items()] + [f'("ids", ({lib.cstr(d["ids_sym"])}, []))']
         return ('SLayer {| l_defs := ' + lib.clist(defs) + '; l_params := []; l_inherit := Fin []; l_optional := []; '
                 'l_persistent := ["id"; "ids"]; l_cache := false |}')
+    if d['t'] == 'apply':
+        names = list(d['fields'])
+        defs = [f'({lib.cstr(f)}, ({lib.cstr(sy)}, [{lib.cstr(f)}]))' for f, sy in d['fields'].items()]
+        return ('SLayer {| l_defs := ' + lib.clist(defs) + f'; l_params := []; l_inherit := Co {sl(names)}; l_optional := []; l_persistent := []; l_cache := false |}}')
     if d['t'] == 'ram':
         return 'SCache ' + ('None' if d['names'] is None else f'(Some {sl(d["names"])})')
     inh = d['inherit']
@@ -65,10 +69,15 @@ def run(ctx, optional, brackets, pid, n_quick=400, n_thorough=5000):
                 'violations': [{'signature': 'harness-error', 'what': log[-800:], 'case': None}]}
     cases = json.load(open(out))['cases']
     viol = []
-    ok_cases = [c for c in cases if 'error' not in c['obs']]
+    ok_cases = [c for c in cases if 'error' not in c['obs'] and not c.get('unmodelled')]
     for i, c in enumerate(cases):
         if 'error' in c['obs']:
             viol.append({'signature': 'oracle:stack-unexpected-error', 'case': {'items': c['items']}, 'what': f'{pid}: stack {i}: {c["obs"]["error"]}'})
+    for i, c in enumerate(cases):
+        sl2 = c['obs'].get('second_look')
+        if sl2 is not None and sl2 != ['DependencyError'] * 3:
+            viol.append({'signature': 'oracle:error-not-repeatable', 'case': {'items': c['items']}, 'observed': sl2,
+                         'what': f'{pid}: stack {i}: after the DependencyError, asking again (dir, a field, an undefined name) gives {sl2} instead of the same error'})
     shards = lib.write_shards(ctx['pid'], 'stack', ['Values', 'NameSet', 'NameLevel', 'CheckLib'], 'ncase', 'check_stack', [literal(c) for c in ok_cases], per=150)
     total, bad, errors = lib.run_shards(shards)
     for e in errors:
@@ -86,7 +95,8 @@ def run(ctx, optional, brackets, pid, n_quick=400, n_thorough=5000):
             for v in c.get('variants', []):
                 checks += 1
                 a, b = c['obs'], v['obs']
-                same = (cls(a) == cls(b)) and (cls(a) != 'fields' or a == b)
+                strip = lambda o: {k: v for k, v in o.items() if k != 'properties'}      # noqa: E731  (meta-property-ness is compared for operands only)
+                same = (cls(a) == cls(b)) and (cls(a) != 'fields' or strip(a) == strip(b))
                 if not same:
                     viol.append({'signature': 'oracle:bracketing-differs', 'case': {'items': c['items'], 'variant': v['name'], 'reuse': c.get('reuse')},
                                  'observed': b, 'expected': a,
